@@ -78,6 +78,12 @@ namespace mc
         // (std::vector, std::string ...) may be linked to the *instrumented* instance, so
         // the runtime's own memory accesses would otherwise be fed back into the detector.
         thread_local int in_rt = 0;
+        // identity of the calling OS thread in the model (-1: not a modelled thread, or one
+        // that has already handed over for the last time).  Plain-access events and
+        // allocator notifications are accepted only from the thread that holds the
+        // scheduler token: an exited thread still frees its std::thread state, concurrently
+        // with whoever runs next, and must not touch the detector's tables then.
+        thread_local int tl_tid = -1;
         struct RtGuard
         {
             RtGuard()
@@ -616,11 +622,13 @@ namespace mc
             [t]()
             {
                 fwait(&t->go);
+                tl_tid = t->id;
                 t->body();
                 t->pk = K_EXIT;
                 t->finished = true;
                 ++t->vc.c[t->id];
                 progress_event();
+                tl_tid = -1;
                 schedule();
             });
         progress_event();
@@ -640,7 +648,7 @@ namespace mc
     void data_write(const void* addr, const char* label, const void* pc, std::uint64_t key)
     {
         RtGuard rt_guard;
-        if (!active)
+        if (!active || tl_tid != cur)
             return;
         Thr* me = T[static_cast<std::size_t>(cur)];
         std::uintptr_t a = reinterpret_cast<std::uintptr_t>(addr);
@@ -670,7 +678,7 @@ namespace mc
     void data_read(const void* addr, const char* label, const void* pc, std::uint64_t key)
     {
         RtGuard rt_guard;
-        if (!active)
+        if (!active || tl_tid != cur)
             return;
         Thr* me = T[static_cast<std::size_t>(cur)];
         std::uintptr_t a = reinterpret_cast<std::uintptr_t>(addr);
@@ -693,7 +701,7 @@ namespace mc
     void forget_range(const void* addr, std::size_t size)
     {
         RtGuard rt_guard;
-        if (!active || shadow_busy || shadow.empty() || size == 0)
+        if (!active || tl_tid != cur || shadow_busy || shadow.empty() || size == 0)
             return;
         shadow_busy = true;
         std::uintptr_t a = reinterpret_cast<std::uintptr_t>(addr);
@@ -785,6 +793,7 @@ namespace mc
             t0->id = 0;
             T.push_back(t0);
             cur = 0;
+            tl_tid = 0;
             active = true;
             alarm(static_cast<unsigned>(o.watchdog_s));
             scenario();
